@@ -242,7 +242,12 @@ func (p *idPool) svc(r *hx.Rng) string { return hx.Pick(r, p.svcs) }
 func (p *idPool) uri(r *hx.Rng) string { return hx.Pick(r, p.uris) }
 
 func genOrigin(r *hx.Rng) interface{} {
-	switch r.Intn(6) {
+	switch r.Intn(8) {
+	case 6:
+		// text that LOOKS like an escape sequence (a real backslash followed by u0026) and characters encoders escape
+		return "https://origin.example/?a=1&b=<2>#" + bsu + "0026" + bsu + "003c-" + genID(r, "")
+	case 7:
+		return map[string]interface{}{"note": "a" + bsu + "003e", "amp&": "<" + genID(r, "") + ">"}
 	case 0:
 		return nil
 	case 1:
